@@ -3,8 +3,11 @@ package harness
 import (
 	"bufio"
 	"encoding/json"
+	"fmt"
 	"math/rand"
 	"os"
+	"sort"
+	"strings"
 	"testing"
 )
 
@@ -92,6 +95,38 @@ func TestHarness(t *testing.T) {
 			}
 			emit(map[string]any{"index": i})
 			emit(RunEp(t, calls, RandomEpChooser(ri, calls, job.Params["maxsteps"], fr), true))
+		}
+	case "resolve":
+		// emits one description record per root, then the cases
+		for _, zr := range ZooRoots() {
+			d := DescribeRoot(zr.Value)
+			emit(map[string]any{"desc": d, "root": zr.Name, "callable": zr.Callable})
+			paths := GenPaths(r, d, zr.Callable, job.N)
+			sort.Strings(paths)
+			for _, p := range paths {
+				argcs := []int{0}
+				if exp, ok := zr.Callable[p]; ok {
+					var a int
+					fmt.Sscanf(exp[strings.LastIndexByte(exp, '/')+1:], "%d", &a)
+					argcs = []int{a, a + 1}
+					if a > 0 {
+						argcs = append(argcs, a-1)
+					}
+				} else {
+					argcs = []int{r.Intn(3)}
+					if p == "CallClosure" {
+						argcs = []int{2, 0, 3}
+					}
+				}
+				for _, a := range argcs {
+					out, hits, le, re := ResolveOnce(zr.Value, p, a)
+					exp := "none"
+					if e, ok := zr.Callable[p]; ok && strings.HasSuffix(e, fmt.Sprintf("/%d", a)) {
+						exp = "invoked:" + e[:strings.LastIndexByte(e, '/')]
+					}
+					emit(ResolveCase{Root: zr.Name, Fn: p, Argc: a, Outcome: out, Hits: hits, LinkErr: le, RespErr: re, Expect: exp})
+				}
+			}
 		}
 	default:
 		t.Fatalf("unknown family %q", job.Family)
